@@ -13,7 +13,7 @@ check(tier, seed):
          has been mutated through its own API (aliasing),
        * identical assignments give identical sequences whatever was built in between,
        * mappable register: exactly the requested traps, declared order, index targeting against it;
-  3. refused-call probe (findings F3 and F40, fixed in /repo): a call with a variable of another sequence,
+  3. refused-call probe (findings F3 and F41, fixed in /repo): a call with a variable of another sequence,
      or with an OWN variable but refused for another reason (undeclared channel, invalid protocol), raises
      and must leave the sequence — `is_parametrized()`, call logs, schedule — alone;
   4. evidence.
@@ -181,10 +181,11 @@ def make_template(ctx: pg.Ctx, case: dict):
         mk = lambda x: pg.to_param(x, vars_)  # noqa: E731
         failed_at = None
         for i, op in enumerate(ops):
+            was = seq.is_parametrized()
             r = pg.try_op(seq, ctx, op, mk)
             if r[0] != "ok":
                 failed_at = i
-                reject = dict(index=i, op=op, err=r[1], parametrized=seq.is_parametrized())
+                reject = dict(index=i, op=op, err=r[1], parametrized=seq.is_parametrized(), was_parametrized=was)
                 break
         if failed_at is None:
             return seq, ops, reject
@@ -280,6 +281,7 @@ class CaseResult:
         self.ops_stored = collections.Counter()
         self.digests = []
         self.chan_order_differs = 0
+        self.param_refused = False
 
 
 def run_case(case: dict, stop_first: bool = True) -> CaseResult:
@@ -289,10 +291,13 @@ def run_case(case: dict, stop_first: bool = True) -> CaseResult:
     decl = case["decl"]
     tmpl, ops, reject = make_template(ctx, case)
     res.reject = reject
-    if reject and pg.has_expr(reject["op"]) and not reject["parametrized"]:
-        res.fails.append(Fail("becomes-parametrized",
-                              f"a call with arguments over declared variables raised {reject['err']} as if it were "
-                              f"concrete: the sequence did not become parametrized ({reject['op']['k']})", {}))
+    if reject and reject["parametrized"] != reject.get("was_parametrized", reject["parametrized"]):
+        # (finding F41, owned by C09: a refused call leaves the mode of the sequence alone)
+        res.fails.append(Fail("failed-call-not-atomic",
+                              f"{reject['op']['k']} raised {reject['err']} but is_parametrized() went "
+                              f"{reject['was_parametrized']} -> {reject['parametrized']}",
+                              dict(op=reject["op"]["k"], err="ownVariableRefused"), prop="C09"))
+    res.param_refused = bool(reject and pg.has_expr(reject["op"]) and not reject["parametrized"])
     res.nstored = len(tmpl._to_build_calls)
     res.nprefix = len(tmpl._calls) - 1
     for c in tmpl._to_build_calls:
@@ -553,7 +558,9 @@ def check(tier: str, seed: int) -> int:
                  build_errors=collections.Counter(), store_rejects=collections.Counter(),
                  register=collections.Counter(), sizes=collections.Counter(), nvars=collections.Counter(),
                  prefix_len=collections.Counter(), prefix_rejects=collections.Counter(),
-                 chan_order=collections.Counter(), mappable_ids=collections.Counter())
+                 chan_order=collections.Counter(), mappable_ids=collections.Counter(),
+                 param_refused=collections.Counter())
+    first_refused: list = []
     evaluations = 0
     templates = 0
     distinct = set()
@@ -602,10 +609,16 @@ def check(tier: str, seed: int) -> int:
             samples.append(dict(device=case["spec"], mappable=case["mappable"], ops=case["ops"][:10],
                                 variables={n: [d["dtype"], d["size"]] for n, d in case["decl"].items()},
                                 builds=[b["assign"] for b in case["builds"][:2]], origin=origin))
+        if res.param_refused:
+            stats["param_refused"][f"{res.reject['op']['k']}:{res.reject['err'][:40]}"] += 1
+            first_refused.append(case)
         for f in res.fails:
             kf = match_known(f.prop, f.key, known)
             if kf is not None:
-                known_hits[kf["id"]] += 1
+                if f.prop == PROP:
+                    known_hits[kf["id"]] += 1
+                else:
+                    foreign[f"{f.prop}:{kf['id']}"] += 1
                 continue
             sig = json.dumps([f.prop, f.key], sort_keys=True, default=str)
             if sig in seen:
@@ -650,6 +663,14 @@ def check(tier: str, seed: int) -> int:
         if violations and tier == "quick":
             break
 
+    if made >= 20 and templates < made // 2 and not violations:
+        # hardly any call with variable arguments is accepted any more: the generator's premise (a call with
+        # declared variables is stored, the sequence becomes parametrized) does not hold
+        violations.append(dict(property=PROP, kind="monitor", clause="becomes-parametrized",
+                               message=f"only {templates} of {made} generated templates could be created; calls "
+                                       f"with variable arguments are refused: {dict(stats['param_refused'])}",
+                               key=dict(clause="becomes-parametrized"),
+                               case=first_refused[0] if first_refused else None))
     ev = dict(
         property_id=PROP, tier=tier, seed=seed, level="proof",
         coverage=dict(
@@ -669,6 +690,7 @@ def check(tier: str, seed: int) -> int:
             build_error_histogram=dict(stats["build_errors"]),
             store_time_rejections=dict(stats["store_rejects"]), store_time_rejection_samples=reject_samples,
             concrete_prefix_truncations=dict(stats["prefix_rejects"]),
+            refused_calls_with_variables=dict(stats["param_refused"]),
             channel_table_order_vs_direct=dict(stats["chan_order"]),
             register_kinds=dict(stats["register"]), mappable_id_styles=dict(stats["mappable_ids"]), stored_calls_per_template=dict(stats["sizes"]),
             variables_per_template=dict(stats["nvars"]), concrete_prefix_length=dict(stats["prefix_len"]),
@@ -708,6 +730,13 @@ def replay(path: str) -> int:
                 return 1
         print("replay: a call with a foreign variable raises and changes nothing")
         return 0
+    if item.get("clause") == "becomes-parametrized":
+        print(item.get("message"))
+        if case is not None:
+            r = run_case(case, stop_first=False)
+            print(f"this case: refused call with variable arguments = {r.param_refused}, rejection = {r.reject}")
+        print(f"VIOLATION property={PROP} replay={path}")
+        return 1
     res = run_case(case, stop_first=False)
     print(f"template: {res.nprefix} concrete calls, {res.nstored} stored calls; builds={res.builds} ok={res.build_ok}")
     if res.reject:
